@@ -55,10 +55,10 @@ func (sc *SC) elemAtoms() *elemAtoms {
 
 // armState is a query over one arm with the element events installed.
 type armState struct {
-	q            *pa.Query
-	evPM, evExh  int
-	disallowed   *pa.F // "no element table admits token.Data" as established in this arm
-	gatepass     *pa.F
+	q           *pa.Query
+	evPM, evExh int
+	disallowed  *pa.F // "no element table admits token.Data" as established in this arm
+	gatepass    *pa.F
 }
 
 func (sc *SC) armElemQuery(arm string, ea *elemAtoms, extra ...*pa.F) (*armState, error) {
@@ -391,4 +391,3 @@ func (sc *SC) voidTestAtoms() []int {
 	}
 	return out
 }
-
